@@ -22,6 +22,7 @@ type RunSummary struct {
 	Leaders    int            `json:"traces_with_leader"`
 	Commits    int            `json:"traces_with_commit"`
 	Profiles   map[string]int `json:"profiles"`
+	Kinds      map[string]int `json:"kinds"`
 	OutFiles   []string       `json:"out_files"`
 	SchedFiles []string       `json:"sched_files"`
 }
@@ -165,7 +166,7 @@ func cmdRandom(args []string) {
 	_ = fs.Parse(args)
 
 	names := []string{"base", "crash", "election", "snap", "conf", "read", "flow"}
-	sum := RunSummary{Acts: map[string]int{}, Profiles: map[string]int{}, Panics: []string{}}
+	sum := RunSummary{Acts: map[string]int{}, Profiles: map[string]int{}, Panics: []string{}, Kinds: map[string]int{}}
 	var w *bufio.Writer
 	var f *os.File
 	open := func(i int) {
@@ -226,6 +227,9 @@ func cmdRandom(args []string) {
 		sum.Panics = append(sum.Panics, c.Panics...)
 		for _, st := range c.Sched {
 			sum.Acts[st.Act]++
+		}
+		for k, v := range c.Kinds {
+			sum.Kinds[k] += v
 		}
 		if *only > 0 && *schedOut != "" {
 			writeSched(*schedOut, c)
